@@ -466,6 +466,9 @@ class FnSpec:
         self.exit = ""
         self.closures = {}
         self.opts = {}
+        # hints written `//@ before* <anchor>` / `//@ after* <anchor>`: stand-alone ghost snapshots that other
+        # contract text (loop invariants) depends on; kept in degraded mode as long as their own anchor exists
+        self.standalone = set()
 
 
 def name_return(sig: str, ret_name: str) -> str:
@@ -586,11 +589,11 @@ def apply_fn_spec(text: str, spec: FnSpec, what: str, lost=None):
         ws = len(after) - len(after.lstrip())
         if after.lstrip().startswith("{"):
             # block closure: replace the head only, contract goes before the block
-            ins.append((b, None, a, head + " " + ens.strip() + " "))
+            ins.append((b, None, a, head + " " + ens.strip() + "\n"))
         else:
             e = closure_body_end(bm, b)
             ins.append((e, " }"))
-            ins.append((b, None, a, head + " " + ens.strip() + " {"))
+            ins.append((b, None, a, head + " " + ens.strip() + "\n{"))
     # apply (sort by offset descending; replacement entries carry 4 fields)
     ins.sort(key=lambda x: -x[0])
     for it in ins:
@@ -798,6 +801,9 @@ def build_unit(unit_name: str, reach: bool = False, mutate=None, stub=None, nohi
                             spec.opts.setdefault("loop_iter", {})[int(d2.split()[1])] = mo_it.group(1)
                     elif k2 in ("before", "after"):
                         cur = (k2, d2.split(None, 1)[1])
+                    elif k2 in ("before*", "after*"):
+                        cur = (k2[:-1], d2.split(None, 1)[1])
+                        spec.standalone.add((cur[0], cur[1]))
                     elif k2 == "closure":
                         rest = d2.split(None, 1)[1]
                         kk, head = [x.strip() for x in rest.split("::", 1)]
@@ -951,7 +957,9 @@ def emit_fn(u: Unit, fpath, impl_pat, name, spec: FnSpec, reach: bool, mutate):
         return
     if key in u.nohints:
         u.degraded.setdefault(spec.opts.get("as", name), []).append("hints dropped: they no longer compile against the current body")
-        spec.before, spec.after, spec.exit = [], [], ""
+        spec.before = [(a, g) for (a, g) in spec.before if ("before", a) in spec.standalone]
+        spec.after = [(a, g) for (a, g) in spec.after if ("after", a) in spec.standalone]
+        spec.exit = ""
     # R10b: associated types `type X = Y;` of a trait impl.  When the trait is dropped (R10) every
     # `Self::X` in the fn text is replaced by its definition Y taken from the same impl block; when the
     # trait is kept they are emitted inside the impl.  Additive: fires only if the text mentions `Self::X`
@@ -982,8 +990,14 @@ def emit_fn(u: Unit, fpath, impl_pat, name, spec: FnSpec, reach: bool, mutate):
     if lost:
         # hints may build on each other: when one anchor is gone, drop every statement-anchored hint
         u.degraded.setdefault(spec.opts.get("as", name), []).extend(lost)
-        spec.before, spec.after, spec.exit = [(a, g) for (a, g) in spec.before if a == "@return" and False], [], ""
-        t = apply_fn_spec(t0, spec, what, [])
+        spec.before = [(a, g) for (a, g) in spec.before if ("before", a) in spec.standalone]
+        spec.after = [(a, g) for (a, g) in spec.after if ("after", a) in spec.standalone]
+        spec.exit = ""
+        lost2 = []
+        t = apply_fn_spec(t0, spec, what, lost2)
+        if lost2:
+            spec.before, spec.after = [], []
+            t = apply_fn_spec(t0, spec, what, [])
     u.emit("// ---- extracted: %s  [%s] ----" % (what, ", ".join(rw.applied)), ("spec", "marker"))
     if header is not None:
         hrw = Rewriter(header, what)
